@@ -239,7 +239,8 @@ def judge(res, U, Ulines, r, wr, flags, tape, prior_oracle=None):
         for e in U:
             f, end = e["first_line"], e["first_line"] + len(e["lines"])
             if f < c < end and resume.is_m(e["pt"]):
-                cut_in_level = c - f
+                # a restored remainder continues the count of the process that was interrupted
+                cut_in_level = c - f + e.get("omen_offset", 0)
         if cut_in_level is not None:
             if not os.path.exists(os.path.join(wr, "S.omn")):
                 return ("omn_missing_after_quit_in_level", info)
@@ -282,8 +283,50 @@ def run_one(tape, tier, prop):
             cases.append((gen_script(t, U, total), gen_schedule(t, total * 12),
                           t.choice([1e-6, 1e-4, 1e-3, 0.02, 0.2])))
     sigs = []
+    # variant: the scheduled process is a RESUMED one (a stand-in quit inside a Markov level came first), so
+    # that status requests meet the stand-in item restore_omen installs and quits can land in the remainder
+    resumed_variant = None
+    mlev = [(m + 1, e) for m, e in enumerate([e for e in U if resume.is_m(e["pt"])]) if len(e["lines"]) >= 2]
+    if mlev and tier != "thorough_enum" and t.chance(1, 4) and len(cases) <= 4:
+        m, e = mlev[t.draw(len(mlev))]
+        j = t.between(1, len(e["lines"]) - 1)
+        resume.clean_sessions(wr)
+        rq = resume.run_cycle(flags, load=False, trigger=("omen", m, j))
+        if rq.ctx.fired and not rq.exc:
+            state = {fn: open(os.path.join(wr, fn), "rb").read() for fn in ("S.sav", "S.omn") if os.path.exists(os.path.join(wr, fn))}
+            rref = resume.run_cycle(flags, load=True, trigger=None)
+            if not rref.exc and len(rref.lines) >= 2:
+                Uref = list(rref.emitted)
+                if rref.remainder:
+                    Uref.insert(0, {"pt": (("M", -1),), "first_line": 0, "lines": list(rref.remainder), "prob": 1.0, "base_prob": 1.0,
+                                     "omen_offset": j})
+                resumed_variant = (state, Uref, rref.lines)
+                res.faults["scheduled_process_is_a_resumed_one"] += 1
     for events, sch, cost in cases:
         resume.clean_sessions(wr)
+        if resumed_variant is not None:
+            state, Uv, Ulv = resumed_variant
+            for fn, data in state.items():
+                open(os.path.join(wr, fn), "wb").write(data)
+            tot = len(Ulv)
+            ev2 = [dict(e, at=min(e["at"], tot)) for e in events]
+            r = scheduled_cycle(flags, True, ev2, sch, cost, knobs={"optimizer_max_length": t.draw(7)})
+            res.stats["scheduled_sessions"] += 1
+            res.sim_seconds += r.ctx.clock.now
+            for k, v in r.ctx.kbd_faults.items():
+                res.faults["stdin_" + k] += v
+            thr = [x for x in r.sim.threads if x is not r.sim.main]
+            if thr and thr[0].exc is not None:
+                res.stats["thread_died_by_exception"] += 1
+                res.stats["thread_died_in_resumed_session:" + type(thr[0].exc).__name__] += 1
+            problem = judge(res, Uv, Ulv, r, wr, flags, t)
+            sigs.append(r.sim.signature())
+            if problem is not None:
+                det = dict(problem[1])
+                det.update(events=repr(ev2), schedule=repr(sch), cost_per_guess=cost, resumed_session=True)
+                res.violate("C12", problem[0] + "(resumed session)", det)
+                break
+            continue
         r = scheduled_cycle(flags, False, [dict(e) for e in events], sch, cost,
                             knobs={"optimizer_max_length": t.draw(7)})
         res.stats["scheduled_sessions"] += 1
